@@ -268,6 +268,10 @@ pub struct Picks {
     /// alphabet: the departure scenario gives three peers fixed, overlapping sets.
     pub per_peer: Option<Vec<Vec<u8>>>,
     pub haves: bool,
+    /// Have commands name pieces below this index.
+    pub have_max: usize,
+    /// Every peer's (first listed) bitfield is sent during setup; no Bitfield events in the search.
+    pub preset: bool,
 }
 
 #[derive(Default)]
@@ -294,7 +298,7 @@ impl Scenario for Picks {
     type Mon = PicksMon;
     fn name(&self) -> String {
         match &self.per_peer {
-            Some(pp) => format!("picks-departures-n{}-p{}-m{:?}", self.n, self.pieces, pp),
+            Some(pp) => format!("picks-departures-n{}-p{}-m{:?}{}", self.n, self.pieces, pp, if self.haves { format!("-have<{}", self.have_max) } else { String::new() }) + if self.preset { "-preset" } else { "" },
             None => format!("picks-n{}-p{}-m{:?}", self.n, self.pieces, self.masks),
         }
     }
@@ -311,6 +315,16 @@ impl Scenario for Picks {
         mon.advertised = vec![vec![false; self.pieces]; self.n];
         mon.bitfields = vec![0; self.n];
         mon.gone = vec![false; self.n];
+        if self.preset {
+            for k in 0..self.n {
+                let m = self.per_peer.as_ref().unwrap()[k][0];
+                w.step(&Ev::MgrBitfield(k, (0..self.pieces).map(|i| i < 3 && m >> i & 1 == 1).collect()), &[]);
+                mon.bitfields[k] = 2;
+                for i in 0..self.pieces {
+                    mon.advertised[k][i] = i < 3 && m >> i & 1 == 1;
+                }
+            }
+        }
         self.remember(w, mon);
     }
     fn enabled(&self, _w: &World, mon: &PicksMon, _depth: usize) -> Vec<String> {
@@ -324,7 +338,7 @@ impl Scenario for Picks {
                     e.push(format!("B{}:{}", k, m));
                 }
             }
-            for i in 0..3.min(self.pieces) {
+            for i in 0..self.have_max.min(self.pieces) {
                 if self.haves && !mon.advertised[k][i] {
                     e.push(format!("H{}:{}", k, i));
                 }
@@ -375,7 +389,31 @@ impl Scenario for Picks {
                         mon.advertised[k][i] = i < 3 && arg.unwrap() >> i & 1 == 1;
                     }
                 }
-                "H" => mon.advertised[k][arg.unwrap()] = true,
+                "H" => {
+                    mon.advertised[k][arg.unwrap()] = true;
+                    // a Have can make the manager hand a piece to an idle, unchoking peer: a pick
+                    let reply = w.mgr_reply.clone().unwrap_or_default();
+                    if reply.contains("Request") {
+                        let pick: Option<usize> = reply.split("piece_index: ").nth(1).and_then(|r| r.split(',').next()).and_then(|v| v.trim().parse().ok());
+                        let mut peers = vec![mon.advertised[k].clone()];
+                        peers.extend((0..self.n).filter(|j| *j != k && !mon.gone[*j]).map(|j| mon.advertised[j].clone()));
+                        let statuses: Vec<u8> = (0..self.pieces)
+                            .map(|i| {
+                                if mon.prev_statuses[i] == 3 {
+                                    3
+                                } else if (0..self.n).any(|j| j != k && !mon.gone[j] && mon.prev_assigned[j] == Some(i) && !mon.prev_choked[j]) {
+                                    1
+                                } else {
+                                    0
+                                }
+                            })
+                            .collect();
+                        let st = State { statuses, peers, digits: vec![] };
+                        if let Some((class, why)) = judge(&st, pick) {
+                            verdict = Some((class, format!("peer {} announced piece {} by Have (idle, not choking us); it advertises {:?}; manager answered {}; {}", k, arg.unwrap(), mon.advertised[k], reply, why)));
+                        }
+                    }
+                }
                 "K" => {
                     mon.gone[k] = true;
                     mon.advertised[k] = vec![false; self.pieces];
@@ -430,9 +468,9 @@ impl Picks {
 
 pub fn picks_scenarios(thorough: bool) -> Vec<(Picks, usize)> {
     if thorough {
-        vec![(Picks { n: 2, pieces: 3, masks: vec![1, 3, 7], per_peer: None, haves: true }, 8), (Picks { n: 3, pieces: 3, masks: vec![1, 6], per_peer: None, haves: true }, 6), (Picks { n: 2, pieces: 12, masks: vec![1, 3, 7], per_peer: None, haves: true }, 8), (Picks { n: 3, pieces: 3, masks: vec![], per_peer: Some(vec![vec![6, 7], vec![2, 3], vec![4, 5]]), haves: false }, 8)]
+        vec![(Picks { n: 2, pieces: 3, masks: vec![1, 3, 7], per_peer: None, haves: true, have_max: 3, preset: false }, 8), (Picks { n: 3, pieces: 3, masks: vec![1, 6], per_peer: None, haves: true, have_max: 3, preset: false }, 6), (Picks { n: 2, pieces: 12, masks: vec![1, 3, 7], per_peer: None, haves: true, have_max: 3, preset: false }, 8), (Picks { n: 3, pieces: 3, masks: vec![], per_peer: Some(vec![vec![6, 7], vec![2, 3], vec![4, 5]]), haves: false, have_max: 3, preset: false }, 8), (Picks { n: 3, pieces: 12, masks: vec![], per_peer: Some(vec![vec![1, 3], vec![1], vec![2]]), haves: true, have_max: 2, preset: false }, 9), (Picks { n: 3, pieces: 12, masks: vec![], per_peer: Some(vec![vec![1], vec![1], vec![1]]), haves: false, have_max: 0, preset: true }, 10)]
     } else {
-        vec![(Picks { n: 2, pieces: 3, masks: vec![1, 6], per_peer: None, haves: true }, 6), (Picks { n: 2, pieces: 12, masks: vec![1, 3], per_peer: None, haves: true }, 6), (Picks { n: 3, pieces: 3, masks: vec![], per_peer: Some(vec![vec![6], vec![2], vec![4]]), haves: false }, 6)]
+        vec![(Picks { n: 2, pieces: 3, masks: vec![1, 6], per_peer: None, haves: true, have_max: 3, preset: false }, 6), (Picks { n: 2, pieces: 12, masks: vec![1, 3], per_peer: None, haves: true, have_max: 3, preset: false }, 6), (Picks { n: 3, pieces: 3, masks: vec![], per_peer: Some(vec![vec![6], vec![2], vec![4]]), haves: false, have_max: 3, preset: false }, 6), (Picks { n: 3, pieces: 12, masks: vec![], per_peer: Some(vec![vec![1], vec![1], vec![2]]), haves: true, have_max: 2, preset: false }, 7), (Picks { n: 3, pieces: 12, masks: vec![], per_peer: Some(vec![vec![1], vec![1], vec![1]]), haves: false, have_max: 0, preset: true }, 7)]
     }
 }
 
@@ -471,7 +509,7 @@ pub fn run(ctx: &Ctx) -> Outcome {
     o.set("evaluations", json!(evals));
     o.set("distinct_nontrivial", json!(nontrivial));
     o.set("parts", Value::Array(parts));
-    o.set("rule", json!("exhaustive part: n pieces, every status vector over {Missing, Reserved(1), Reserved(2), Have}, the asked peer plus the other peers with every advertised set, and every digit vector of the real Fisher-Yates shuffle (= every tie-break permutation); threshold part: n in 9..=12, every (have, reserved, missing) split in two layouts, 3 peers with advertised sets from {all, none, only missing, only reserved, single piece x3, every second}, every candidate brought to the front of the shuffle once. Each (state, tie-break) is one call of the real choose_piece_index; states = transitions = evaluations; non-trivial = more than one acceptable pick. History part (picks-*): BFS over the commands B<k>:<mask> (bitfield, at most twice), H<k>:<i> (have), U<k> (unchoke, answered on a live reply channel), C<k> (choke), K<k> (disconnect) of 2..3 manager-only peers on a 3-piece and a 12-piece torrent: whenever an unchoke makes the manager pick, the pick must be acceptable with respect to what the peers really advertised (the harness's own record of their bitfields and haves) and to which pieces are owned / held by another connected, unchoking peer before the command (read from the peers' assignments, not from the reservation counters). picks-departures-*: three peers with fixed overlapping sets ({1,2}, {1}, {2}) and no Have commands, so that a disconnect changes which piece is the rarest between two picks."));
+    o.set("rule", json!("exhaustive part: n pieces, every status vector over {Missing, Reserved(1), Reserved(2), Have}, the asked peer plus the other peers with every advertised set, and every digit vector of the real Fisher-Yates shuffle (= every tie-break permutation); threshold part: n in 9..=12, every (have, reserved, missing) split in two layouts, 3 peers with advertised sets from {all, none, only missing, only reserved, single piece x3, every second}, every candidate brought to the front of the shuffle once. Each (state, tie-break) is one call of the real choose_piece_index; states = transitions = evaluations; non-trivial = more than one acceptable pick. History part (picks-*): BFS over the commands B<k>:<mask> (bitfield, at most twice), H<k>:<i> (have), U<k> (unchoke, answered on a live reply channel), C<k> (choke), K<k> (disconnect) of 2..3 manager-only peers on a 3-piece and a 12-piece torrent: whenever an unchoke — or a Have announced by an idle peer that is not choking us — makes the manager pick, the pick must be acceptable with respect to what the peers really advertised (the harness's own record of their bitfields and haves) and to which pieces are owned / held by another connected, unchoking peer before the command (read from the peers' assignments, not from the reservation counters). picks-departures-*: three peers with fixed overlapping sets ({1,2}, {1}, {2}) and no Have commands, so that a disconnect changes which piece is the rarest between two picks; and a 12-piece variant (outside end game) with Have commands, in which a piece is freed (its holder leaves or chokes) while another holder idles and then announces a more common piece; and a -preset variant (all three peers advertise piece 0 only, bitfields sent during setup, 12 pieces) for long choke / unchoke / disconnect histories: a peer that chokes us, whose piece is taken over by another peer and who then leaves or chokes again."));
     o.set("samples", Value::Array(samples));
     o.set("exhaustive", json!(true));
     o.assume("the asked peer holds no assignment of its own (reservations belong to other peers); the pick is observed at choose_piece_index, which every command handler (unchoke, bitfield, piece done/cancel, not-interested) calls");
